@@ -87,7 +87,7 @@ def run_axis_case(case):
                     sl[ax] = i
                 sv = [list(v) for v in varr[tuple(sl)].reshape(-1)]
                 sc = [int(c) for c in bfull[tuple(sl)].reshape(-1)]
-                ov = [pv(x, 1e-9) for x in r[idx].reshape(-1)]
+                ov = [redcase.pv_out(x, 1e-9) for x in r[idx].reshape(-1)]
                 slices.append({"idx": list(idx), "vals": sv, "codes": sc, "out": ov})
         out["slices"] = slices
     except ProjectionError as e:
